@@ -303,17 +303,36 @@ def H3_violation_table(ctx):
             if ret[3][0] != ('const', 'false'):
                 bad.append((p, 'zero future cost must be skipped'))
             continue
-        lt = [x for x in p.events if x.kind == 'atom' and x.d['term'][0] == 'call' and re.search(r'::(lt|ge|gt|le)$', x.d['term'][1])]
-        if not lt:
+        # the deciding comparison, however spelled: final_balance REL M, with M = min(balance_before, future cost) given as a
+        # `min` call or as the branch that picks the smaller one
+        fut = strip(ra[0].d['result'])
+        is_final = lambda t: is_field(strip(t), 'DelegatedDebit.final_balance')
+        is_before = lambda t: is_field(strip(t), 'DelegatedDebit.balance_before')
+        dec = None
+        for x in p.events:
+            n_ = norm_cmp(x) if x.kind == 'atom' else None
+            if not n_:
+                continue
+            op, l, r = n_
+            if is_final(r) and not is_final(l):
+                op, l, r = CMP_FLIP[op], r, l
+            if is_final(l):
+                dec = (op, r, x)
+        if dec is None:
             bad.append((p, 'balance comparison not found'))
             continue
-        t = lt[0].d['term']
-        l, r = t[2]
-        okc = t[1].endswith('::lt') and is_field(strip(l), 'DelegatedDebit.final_balance') and r[0] == 'call' and callee_matches(r[1], ('Ord::min', 'cmp::min')) \
-            and any(is_field(strip(x), 'DelegatedDebit.balance_before') for x in r[2]) and any(x == ra[0].d['result'] for x in r[2])
-        if not okc:
-            bad.append((p, f'comparison is {show(t)[:140]} (expected final_balance < min(balance_before, future cost))'))
-        viol = lt[0].d['outcome'] == 'true'
+        op, m, x = dec
+        i_x = idx_of(p, x)
+        m_ok = False
+        if m[0] == 'call' and callee_matches(m[1], ('Ord::min', 'cmp::min')) and any(is_before(a) for a in m[2]) and any(strip(a) == fut for a in m[2]):
+            m_ok = True
+        elif strip(m) == fut:
+            m_ok = holds_rel(p, i_x, lambda o, a, b: o in ('Lt', 'Le') and strip(a) == fut and is_before(b))
+        elif is_before(m):
+            m_ok = holds_rel(p, i_x, lambda o, a, b: o in ('Lt', 'Le') and is_before(a) and strip(b) == fut)
+        if not m_ok or op not in ('Lt', 'Ge'):
+            bad.append((p, f'comparison is final_balance {op} {show(m)[:80]} (expected final_balance < min(balance_before, future cost))'))
+        viol = op == 'Lt'
         rows.add('violation' if viol else 'ok')
         if viol != (ret[3][0] == ('const', 'true')):
             bad.append((p, 'comparison outcome does not decide the result'))
@@ -457,6 +476,11 @@ def H4b_journal_tables(ctx):
             if e.kind == 'call' and e.d['callee'].endswith('::saturating_sub'):
                 op = ('sub', tuple(je_fields(e.d['args'][1])))
             if e.kind == 'assign' and e.d['place'] == ('var', acc) and 'old_balance' in je_fields(e.d['value']):
+                op = ('set', ('old_balance',))
+        if op is None:
+            # the reconstructed balance may be the value the (desugared) fold step returns instead of an assignment
+            rv = [e for e in p.events if e.kind == 'ret']
+            if rv and 'old_balance' in je_fields(rv[0].d['value']) and not term_calls(rv[0].d['value'], '::saturating_add') and not term_calls(rv[0].d['value'], '::saturating_sub'):
                 op = ('set', ('old_balance',))
         rows.add((var, tuple(sorted(conds.items())), op[0] if op else None, op[1] if op else ()))
     exp_ops = {
